@@ -194,9 +194,18 @@ def main(argv=None):
                     undecided.append('%s: clause in the ledger was not generated on this tree' % cid)
     if a.update_ledger:
         new = dict(ledger) if a.only else {}
+        if tier == 'quick' and not a.only:
+            # clauses only the thorough tier generates keep their marker (a quick update must not drop them); KVC_LEDGER_REPAIR=1 re-marks every ledger clause
+            # the quick tier does not generate as thorough-only (one-off repair after a ledger written by an older version)
+            for cid, st in ledger.items():
+                if cid not in per_clause and (st == 'thorough' or os.environ.get('KVC_LEDGER_REPAIR')):
+                    new[cid] = 'thorough'
         for cid, st in per_clause.items():
             if st in ('proved', 'canary-refuted', 'known-finding'):
-                new[cid] = st if tier == 'quick' or cid in ledger else 'thorough'
+                if tier == 'quick':
+                    new[cid] = st
+                else:
+                    new[cid] = 'thorough' if ledger.get(cid, 'thorough') == 'thorough' else st
         ledger_all[prop] = new
         os.makedirs(os.path.dirname(ledger_path), exist_ok=True)
         json.dump(ledger_all, open(ledger_path, 'w'), indent=1, sort_keys=True)
